@@ -76,6 +76,12 @@ def types(big=False):
     T.append({"k": "regexp", "bound": S, "py": ["rx", "a.*b"]})
     T.append({"k": "inter", "args": [sw, ew], "py": ["and", sw["py"], ew["py"]]})
     T.append({"k": "union", "args": [sw, ew], "py": ["or", sw["py"], ew["py"]]})
+    # a union nested in an intersection (either side): the union's alternatives must not leak out of it
+    swb = {"k": "startswith", "p": [98], "bound": S, "py": ["sw", "b"]}
+    ewa = {"k": "endswith", "p": [97], "bound": S, "py": ["ew", "a"]}
+    u_ab = {"k": "union", "args": [sw, swb], "py": ["or", sw["py"], swb["py"]]}
+    T.append({"k": "inter", "args": [ewa, u_ab], "py": ["and", ewa["py"], u_ab["py"]]})
+    T.append({"k": "inter", "args": [u_ab, ewa], "py": ["and", u_ab["py"], ewa["py"]]})
     l0 = T[0]
     T.append({"k": "union", "args": [l0, sw], "py": ["or", l0["py"], sw["py"]]})
     # members whose bounds are nested (bool below int): each member only speaks for instances of its own bound
